@@ -411,6 +411,29 @@ pub fn run_sweep(ctx: &Ctx, rep: &mut Report) {
                     }
                 }
             }
+            // once more through the dev-profile build of the same source (overflow checks on): it must succeed and write
+            // what the release build writes
+            if ok && cli::debug_exe().is_some() && !cli::debug_profile() {
+                for with_ref in [true, false] {
+                    rep.evaluations += 1;
+                    rep.nontrivial += 1;
+                    let rel = lo::run_lo(&dir, k, &samples, if with_ref { Some(&reference) } else { None }, &[], 1, Some(ctx.seed));
+                    cli::set_debug_profile(true);
+                    let dbg = lo::run_lo(&dir, k, &samples, if with_ref { Some(&reference) } else { None }, &[], 1, Some(ctx.seed));
+                    cli::set_debug_profile(false);
+                    rep.corner("lo_family_through_the_overflow_checked_build");
+                    match (rel, dbg) {
+                        (Ok(a), Ok(b)) => {
+                            if a.code == 0 && b.code != 0 {
+                                rep.violate(format!("lo {fam} family, overflow-checked build"), format!("[overflow-checked build] ska lo ({fam} family, {}) exits {} where the release build succeeds: {}", if with_ref { "with reference" } else { "no reference" }, b.code, b.stderr_tail), json!({"cmd": "LoProfiles", "family": fam, "with_ref": with_ref, "profile": "overflow-checked"}));
+                            } else if a.code == 0 && (a.snp_seqs != b.snp_seqs || a.snps_vcf != b.snps_vcf || a.indels_vcf != b.indels_vcf) {
+                                rep.violate(format!("lo {fam} family, profiles differ"), format!("ska lo ({fam} family, {}) writes different files in the release and the overflow-checked build", if with_ref { "with reference" } else { "no reference" }), json!({"cmd": "LoProfiles", "family": fam, "with_ref": with_ref}));
+                            }
+                        }
+                        (Err(e), _) | (_, Err(e)) => rep.machinery(e),
+                    }
+                }
+            }
             // the same family without a reference: columns up to order and strand; indel records up to order and strand
             let mut outs_nr: std::collections::BTreeMap<String, Vec<(usize, u64)>> = std::collections::BTreeMap::new();
             for hs in 0..nseeds {
